@@ -27,9 +27,9 @@ syntax "fin_task " ident ident : tactic
 macro_rules
   | `(tactic| fin_task $x $t) => `(tactic|
       (by_cases e : $x = $t
-       · subst e; simp [preQ, preS, asapHeld, b2n] at * <;> grind
+       · subst e; (try simp [preQ, preS, asapHeld, b2n, Task.active] at *) <;> grind
        · have e' : ¬ $t = $x := fun h => e h.symm
-         simp only [preQ, preS, asapHeld, b2n] at *
+         (try simp only [preQ, preS, asapHeld, b2n, Task.active] at *)
          (try simp [e, e'])
          (try grind)))
 
@@ -607,5 +607,298 @@ theorem invLists_stepAt {s s' : St} {a : Act} (hi : InvLists s) (h : stepAt s a 
     · simp only [doAsap]; split
       · apply invLists_frame hi <;> simp
       · exact invLists_asap_core hi t _ _ (by simp)
+
+
+/-- A submission that is still owed is remembered: the task carries a queue flag, or the schedule handler is
+    about to call `StartASAP` on it — unless the request was dropped (finding). -/
+def InvOwed (s : St) : Prop :=
+  ∀ t, (s.tasks t).owed = true → (s.tasks t).canceled = false → (s.tasks t).dropped = false →
+    (s.tasks t).inQ = true ∨ (s.tasks t).inP = true ∨ s.sh = .holdAsap t
+
+theorem invOwed_stepAt {s s' : St} {a : Act} (hi : InvOwed s) (h : stepAt s a = some s') : InvOwed s' := by
+  cases a with
+  | newInert t => simp only [stepAt] at h; cases h; intro x; have hx := hi x; have ht := hi t; fin_task x t
+  | queue t => simp only [stepAt] at h; cases h; intro x; have hx := hi x; have ht := hi t; simp only [doQueue]; (repeat' split) <;> fin_task x t
+  | queueP t => simp only [stepAt] at h; cases h; intro x; have hx := hi x; have ht := hi t; simp only [doQueueP]; (repeat' split) <;> fin_task x t
+  | asap t b =>
+    simp only [stepAt] at h; split at h
+    · cases h
+    · cases h; intro x; have hx := hi x; have ht := hi t; simp only [doAsap]; (repeat' split) <;> fin_task x t
+  | maxDelay t d => simp only [stepAt] at h; cases h; intro x; have hx := hi x; have ht := hi t; fin_task x t
+  | schedule t tm => simp only [stepAt] at h; cases h; intro x; have hx := hi x; have ht := hi t; simp only [doSchedule]; (repeat' split) <;> fin_task x t
+  | cancel t => simp only [stepAt] at h; cases h; intro x; have hx := hi x; have ht := hi t; simp only [doCancel]; fin_task x t
+  | qhWait =>
+    simp only [stepAt] at h; split at h
+    · cases h
+    · cases h; intro x; have hx := hi x; (simp [preQ, preS, asapHeld, b2n] at * <;> grind)
+  | qhPop =>
+    simp only [stepAt] at h; (repeat' split at h) <;> cases h <;> intro x <;> have hx := hi x <;> (simp [preQ, preS, asapHeld, b2n] at * <;> grind)
+  | runQ =>
+    simp only [stepAt] at h; split at h
+    · rename_i t hq
+      cases h; intro x; have hx := hi x; have ht := hi t
+      simp only [runSection, runResOf]; (repeat' split) <;> fin_task x t
+    · cases h
+  | runS =>
+    simp only [stepAt] at h; split at h
+    · rename_i t hq
+      cases h; intro x; have hx := hi x; have ht := hi t
+      simp only [runSection, runResOf]; (repeat' split) <;> fin_task x t
+    · cases h
+  | spawnQ =>
+    simp only [stepAt] at h; split at h
+    · rename_i t hq
+      cases h; intro x; have hx := hi x; have ht := hi t; fin_task x t
+    · cases h
+  | spawnS =>
+    simp only [stepAt] at h; split at h
+    · rename_i t hq
+      cases h; intro x; have hx := hi x; have ht := hi t; fin_task x t
+    · cases h
+  | fnBegin t =>
+    simp only [stepAt] at h; split at h
+    · cases h
+    · cases h; intro x; have hx := hi x; have ht := hi t; fin_task x t
+  | fnEnd t =>
+    simp only [stepAt] at h; split at h
+    · cases h
+    · cases h; intro x; have hx := hi x; have ht := hi t; fin_task x t
+  | finish t =>
+    simp only [stepAt] at h; split at h
+    · cases h
+    · cases h; intro x; have hx := hi x; have ht := hi t; fin_task x t
+  | slotFree t b =>
+    simp only [stepAt] at h; (repeat' split at h) <;> (try cases h)
+    all_goals (intro x; have hx := hi x; have ht := hi t; (repeat' split) <;> fin_task x t)
+  | shFetch =>
+    simp only [stepAt] at h; (repeat' split at h) <;> (try cases h)
+    · intro x; have hx := hi x; (simp [preQ, preS, asapHeld, b2n] at * <;> grind)
+    · intro x; have hx := hi x; (simp [preQ, preS, asapHeld, b2n] at * <;> grind)
+    · rename_i t hf; intro x; have hx := hi x; have ht := hi t; fin_task x t
+    · rename_i t hf; intro x; have hx := hi x; have ht := hi t; fin_task x t
+
+
+theorem mem_rmQueue_of_ne (s : St) {x t : Nat} (e : x ≠ t) : x ∈ rmQueue s t ↔ x ∈ s.queue := by
+  simp only [rmQueue]; split
+  · exact List.mem_erase_of_ne e
+  · rfl
+
+theorem mem_rmPrio_of_ne (s : St) {x t : Nat} (e : x ≠ t) : x ∈ rmPrio s t ↔ x ∈ s.prio := by
+  simp only [rmPrio]; split
+  · exact List.mem_erase_of_ne e
+  · rfl
+
+/-- A queue flag means: the task is in that queue, or the queue handler has just taken it out and holds it. -/
+def InvHold (s : St) : Prop :=
+  ∀ t, ((s.tasks t).inQ = true → t ∈ s.queue ∨ s.qh = .hold t) ∧
+       ((s.tasks t).inP = true → t ∈ s.prio ∨ s.qh = .hold t)
+
+syntax "fin_hold " ident ident : tactic
+macro_rules
+  | `(tactic| fin_hold $x $t) => `(tactic|
+      (by_cases e : $x = $t
+       · subst e; (try simp [Task.active] at *) <;> grind
+       · have e' : ¬ $t = $x := fun h => e h.symm
+         (try simp only [Task.active] at *)
+         (try simp [e, e', mem_rmQueue_of_ne, mem_rmPrio_of_ne, List.mem_erase_of_ne])
+         (try grind)))
+
+theorem invHold_stepAt {s s' : St} {a : Act} (hi : InvHold s) (h : stepAt s a = some s') : InvHold s' := by
+  cases a with
+  | newInert t => simp only [stepAt] at h; cases h; intro x; have hx := hi x; have ht := hi t; fin_hold x t
+  | queue t => simp only [stepAt] at h; cases h; intro x; have hx := hi x; have ht := hi t; simp only [doQueue]; (repeat' split) <;> fin_hold x t
+  | queueP t => simp only [stepAt] at h; cases h; intro x; have hx := hi x; have ht := hi t; simp only [doQueueP]; (repeat' split) <;> fin_hold x t
+  | asap t b =>
+    simp only [stepAt] at h; split at h
+    · cases h
+    · cases h; intro x; have hx := hi x; have ht := hi t; simp only [doAsap]; (repeat' split) <;> fin_hold x t
+  | maxDelay t d => simp only [stepAt] at h; cases h; intro x; have hx := hi x; have ht := hi t; fin_hold x t
+  | schedule t tm => simp only [stepAt] at h; cases h; intro x; have hx := hi x; have ht := hi t; simp only [doSchedule]; (repeat' split) <;> fin_hold x t
+  | cancel t => simp only [stepAt] at h; cases h; intro x; have hx := hi x; have ht := hi t; simp only [doCancel]; fin_hold x t
+  | qhWait =>
+    simp only [stepAt] at h; split at h
+    · cases h
+    · cases h; intro x; have hx := hi x; ((try simp at *) <;> grind)
+  | qhPop =>
+    simp only [stepAt] at h; (repeat' split at h) <;> cases h <;> intro x <;> have hx := hi x <;> ((try simp at *) <;> grind)
+  | runQ =>
+    simp only [stepAt] at h; split at h
+    · rename_i t hq
+      cases h; intro x; have hx := hi x; have ht := hi t
+      simp only [runSection, runResOf]; (repeat' split) <;> fin_hold x t
+    · cases h
+  | runS =>
+    simp only [stepAt] at h; split at h
+    · rename_i t hq
+      cases h; intro x; have hx := hi x; have ht := hi t
+      simp only [runSection, runResOf]; (repeat' split) <;> fin_hold x t
+    · cases h
+  | spawnQ =>
+    simp only [stepAt] at h; split at h
+    · rename_i t hq
+      cases h; intro x; have hx := hi x; have ht := hi t; fin_hold x t
+    · cases h
+  | spawnS =>
+    simp only [stepAt] at h; split at h
+    · rename_i t hq
+      cases h; intro x; have hx := hi x; have ht := hi t; fin_hold x t
+    · cases h
+  | fnBegin t =>
+    simp only [stepAt] at h; split at h
+    · cases h
+    · cases h; intro x; have hx := hi x; have ht := hi t; fin_hold x t
+  | fnEnd t =>
+    simp only [stepAt] at h; split at h
+    · cases h
+    · cases h; intro x; have hx := hi x; have ht := hi t; fin_hold x t
+  | finish t =>
+    simp only [stepAt] at h; split at h
+    · cases h
+    · cases h; intro x; have hx := hi x; have ht := hi t; fin_hold x t
+  | slotFree t b =>
+    simp only [stepAt] at h; (repeat' split at h) <;> (try cases h)
+    all_goals (intro x; have hx := hi x; have ht := hi t; (repeat' split) <;> fin_hold x t)
+  | shFetch =>
+    simp only [stepAt] at h; (repeat' split at h) <;> (try cases h)
+    · intro x; have hx := hi x; ((try simp at *) <;> grind)
+    · intro x; have hx := hi x; ((try simp at *) <;> grind)
+    · rename_i t hf; intro x; have hx := hi x; have ht := hi t; fin_hold x t
+    · rename_i t hf; intro x; have hx := hi x; have ht := hi t; fin_hold x t
+
+
+theorem fetchRes_asap {s : St} {t : Nat} (h : fetchRes s = .asap t) :
+    t ∈ s.sched ∧ (s.tasks t).executeAt ≤ s.now ∧ (s.tasks t).overtime = false := by
+  simp only [fetchRes] at h
+  split at h
+  · cases h
+  · rename_i u us hs
+    split at h
+    · cases h
+    · split at h
+      · cases h
+      · cases h; simp_all
+
+theorem fetchRes_run {s : St} {t : Nat} (h : fetchRes s = .run t) :
+    t ∈ s.sched ∧ (s.tasks t).executeAt ≤ s.now ∧ (s.tasks t).overtime = true := by
+  simp only [fetchRes] at h
+  split at h
+  · cases h
+  · rename_i u us hs
+    split at h
+    · cases h
+    · split at h
+      · cases h; simp_all
+      · cases h
+
+theorem mem_schedWith_iff (s : St) (t tm x : Nat) : x ∈ schedWith s t tm ↔ x = t ∨ x ∈ s.sched := by
+  rw [mem_schedWith]
+  constructor
+  · intro h; rcases h with h | h | h
+    · exact Or.inl h
+    · exact Or.inr h.1
+    · exact Or.inr (List.mem_of_mem_erase h)
+  · intro h; rcases h with h | h
+    · exact Or.inl h
+    · by_cases e : x = t
+      · exact Or.inl e
+      · exact Or.inr (Or.inl ⟨h, e⟩)
+
+theorem mem_prepSched_iff (s : St) (t x : Nat) :
+    x ∈ prepSched s t ↔ ((s.tasks t).maxDelay ≠ 0 ∧ x = t) ∨ x ∈ s.sched := by
+  simp only [prepSched]; split
+  · rename_i hm; rw [mem_schedWith_iff]; simp at hm; simp [hm]
+  · rename_i hm; simp at hm; simp [hm]
+
+theorem mem_rmSched_iff {s : St} (hi : InvLists s) (t x : Nat) : x ∈ rmSched s t ↔ x ∈ s.sched ∧ x ≠ t := by
+  constructor
+  · exact mem_rmSched hi
+  · intro ⟨h, e⟩; simp only [rmSched]; split
+    · exact (List.mem_erase_of_ne e).2 h
+    · exact h
+
+
+/-- Scheduled times: which tasks may sit in a run queue without a submission from outside, and what
+    `executeAt` of a schedule entry means. -/
+def InvEarly (s : St) : Prop :=
+  ∀ t,
+    (s.sh = .holdAsap t → (s.tasks t).prom = true) ∧
+    ((s.tasks t).userSub = false → ((s.tasks t).inQ = true ∨ (s.tasks t).inP = true) → (s.tasks t).prom = true) ∧
+    ((s.tasks t).prom = true → (s.tasks t).promAt ≤ s.now ∧ (s.tasks t).promAt ∈ (s.tasks t).schedHist) ∧
+    (t ∈ s.sched → (s.tasks t).overtime = false → (s.tasks t).eaUser = false → s.sh = .holdRun t) ∧
+    (t ∈ s.sched → (s.tasks t).eaUser = false → (s.tasks t).canceled = false →
+      ((s.tasks t).inQ = true ∨ (s.tasks t).inP = true)) ∧
+    ((s.tasks t).eaUser = true → (s.tasks t).executeAt ∈ (s.tasks t).schedHist)
+
+syntax "fin_early " ident ident ident : tactic
+macro_rules
+  | `(tactic| fin_early $x $t $hL) => `(tactic|
+      (by_cases e : $x = $t
+       · subst e; (try simp [Task.active, shHoldsAsap, mem_rmSched_iff $hL, mem_prepSched_iff, mem_schedWith_iff] at *) <;> grind
+       · have e' : ¬ $t = $x := fun h => e h.symm
+         (try simp only [Task.active, shHoldsAsap] at *)
+         (try simp [e, e', mem_rmSched_iff $hL, mem_prepSched_iff, mem_schedWith_iff])
+         (try grind)))
+
+theorem invEarly_stepAt {s s' : St} {a : Act} (hL : InvLists s) (hi : InvEarly s) (h : stepAt s a = some s') : InvEarly s' := by
+  cases a with
+  | newInert t => simp only [stepAt] at h; cases h; intro x; have hx := hi x; have ht := hi t; fin_early x t hL
+  | queue t => simp only [stepAt] at h; cases h; intro x; have hx := hi x; have ht := hi t; simp only [doQueue]; (repeat' split) <;> fin_early x t hL
+  | queueP t => simp only [stepAt] at h; cases h; intro x; have hx := hi x; have ht := hi t; simp only [doQueueP]; (repeat' split) <;> fin_early x t hL
+  | asap t b =>
+    simp only [stepAt] at h; split at h
+    · cases h
+    · cases h; intro x; have hx := hi x; have ht := hi t; simp only [doAsap]; (repeat' split) <;> fin_early x t hL
+  | maxDelay t d => simp only [stepAt] at h; cases h; intro x; have hx := hi x; have ht := hi t; fin_early x t hL
+  | schedule t tm => simp only [stepAt] at h; cases h; intro x; have hx := hi x; have ht := hi t; simp only [doSchedule]; (repeat' split) <;> fin_early x t hL
+  | cancel t => simp only [stepAt] at h; cases h; intro x; have hx := hi x; have ht := hi t; simp only [doCancel]; fin_early x t hL
+  | qhWait =>
+    simp only [stepAt] at h; split at h
+    · cases h
+    · cases h; intro x; have hx := hi x; ((try simp at *) <;> grind)
+  | qhPop =>
+    simp only [stepAt] at h; (repeat' split at h) <;> cases h <;> intro x <;> have hx := hi x <;> ((try simp at *) <;> grind)
+  | runQ =>
+    simp only [stepAt] at h; split at h
+    · rename_i t hq
+      cases h; intro x; have hx := hi x; have ht := hi t
+      simp only [runSection, runResOf]; (repeat' split) <;> fin_early x t hL
+    · cases h
+  | runS =>
+    simp only [stepAt] at h; split at h
+    · rename_i t hq
+      cases h; intro x; have hx := hi x; have ht := hi t
+      simp only [runSection, runResOf]; (repeat' split) <;> fin_early x t hL
+    · cases h
+  | spawnQ =>
+    simp only [stepAt] at h; split at h
+    · rename_i t hq
+      cases h; intro x; have hx := hi x; have ht := hi t; fin_early x t hL
+    · cases h
+  | spawnS =>
+    simp only [stepAt] at h; split at h
+    · rename_i t hq
+      cases h; intro x; have hx := hi x; have ht := hi t; fin_early x t hL
+    · cases h
+  | fnBegin t =>
+    simp only [stepAt] at h; split at h
+    · cases h
+    · cases h; intro x; have hx := hi x; have ht := hi t; fin_early x t hL
+  | fnEnd t =>
+    simp only [stepAt] at h; split at h
+    · cases h
+    · cases h; intro x; have hx := hi x; have ht := hi t; fin_early x t hL
+  | finish t =>
+    simp only [stepAt] at h; split at h
+    · cases h
+    · cases h; intro x; have hx := hi x; have ht := hi t; fin_early x t hL
+  | slotFree t b =>
+    simp only [stepAt] at h; (repeat' split at h) <;> (try cases h)
+    all_goals (intro x; have hx := hi x; have ht := hi t; (repeat' split) <;> fin_early x t hL)
+  | shFetch =>
+    simp only [stepAt] at h; (repeat' split at h) <;> (try cases h)
+    · intro x; have hx := hi x; ((try simp at *) <;> grind)
+    · intro x; have hx := hi x; ((try simp at *) <;> grind)
+    · rename_i t hf; have hf2 := fetchRes_run hf; intro x; have hx := hi x; have ht := hi t; fin_early x t hL
+    · rename_i t hf; have hf2 := fetchRes_asap hf; intro x; have hx := hi x; have ht := hi t; fin_early x t hL
 
 end PB.Tasks
